@@ -254,6 +254,12 @@ func freshShapes() []freshSpec {
 		points(dpSpec{kind: "fullName", names: []gnameSpec{uri(urlD1)}, reasons: true}),
 		{kind: "points", points: []dpSpec{full(uri(urlD1))}, trailing: true},
 		points(full(uri(urlD1), uri(urlD1))),
+		// advertised order that is not the sorted order of the URLs; a location repeated further down
+		points(full(uri(urlD2), uri(urlD1))),
+		points(full(uri(urlD3), uri(urlD1), uri(urlD2))),
+		points(full(uri(urlD3), uri(urlD2), uri(urlD1))),
+		points(full(uri(urlD3)), full(uri(urlD1))),
+		points(full(uri(urlD2), uri(urlD1), uri(urlD2))),
 	}
 }
 
